@@ -129,7 +129,7 @@ fn bind_t(items: Vec<Item>) -> Vec<Item> {
     items
         .into_iter()
         .map(|x| match x {
-            Item::L(l) if l == "T" => Item::L("->M::T".into()),
+            Item::L(l) if l == "T" || l == "S" || l == "E" => Item::L(format!("->M::{l}")),
             o => o,
         })
         .collect()
@@ -283,12 +283,14 @@ fn pos_ids() -> Vec<&'static str> {
 }
 
 fn inline_text(inline: &str, j: usize) -> (String, Vec<Item>, bool) {
+    // the inline link of the j-th tag names ltargets[(j - 1) % 3] (MC_DocComment!LinkTargets)
+    let lt = ["T", "S", "E"][(j - 1) % 3];
     // (what is written after the tag head, the inline message, whether an inline message exists)
     match inline {
         "emptycolon" => (":".into(), vec![], false),
         "text" => (format!(": gamma{j}"), vec![Item::T(format!("gamma{j}"))], true),
         "padded" => (format!(":    gamma{j}"), vec![Item::T(format!("gamma{j}"))], true),
-        "link" => (format!(": {{@link T}} delta{j}"), vec![Item::L("T".into()), Item::T(format!(" delta{j}"))], true),
+        "link" => (format!(": {{@link {lt}}} delta{j}"), vec![Item::L(lt.into()), Item::T(format!(" delta{j}"))], true),
         _ => (String::new(), vec![], false),
     }
 }
@@ -434,6 +436,9 @@ impl Family for DocComments {
                 let key = hash_str(&rendered.to_string());
                 let c = compile(&[text]);
                 let fail = (|| {
+                    if case["ltargets"] != json!(["T", "S", "E"]) {
+                        return Some(json!({"kind": "harness", "what": "link target table differs from MC_DocComment!LinkTargets"}));
+                    }
                     let exp = &case["exp"];
                     if let Some(f) = check_counts(
                         &c,
